@@ -131,3 +131,72 @@ func VerifEqualObjectsSound() {
 	}
 	vp.Assert(verifStructEq(o1, o2, table), "EqualObjects calls two structurally different objects equal")
 }
+
+// VerifConsolidateNoAliasing (C20, resource consolidation): consolidateResources accumulates the resource
+// dictionaries found on the way from the page tree root to a page into a per-page working copy that
+// the optimiser then PRUNES to what the page's content uses. The working copy must therefore never
+// alias a dictionary of the document: for every shape of the inherited state (none yet / present, with
+// or without the sub-dictionary) and of the node's /Resources (direct or indirect, sub-dictionaries
+// direct or indirect), emptying every sub-dictionary of the working copy afterwards must leave the
+// document's own dictionaries unchanged (two pages sharing a resource dictionary would otherwise lose
+// each other's fonts and images).
+func VerifConsolidateNoAliasing() {
+	xt := &XRefTable{Table: map[int]*XRefTableEntry{}}
+	put := func(nr int, o types.Object) types.IndirectRef {
+		gen := 0
+		xt.Table[nr] = &XRefTableEntry{Object: o, Generation: &gen}
+		return *types.NewIndirectRef(nr, 0)
+	}
+	font := types.Dict{"F1": *types.NewIndirectRef(20, 0), "F2": *types.NewIndirectRef(21, 0)}
+	xobj := types.Dict{"Im1": *types.NewIndirectRef(22, 0)}
+	res := types.Dict{}
+	var fontEntry, xobjEntry types.Object = font, xobj
+	if vp.Bool() {
+		fontEntry = put(10, font)
+	}
+	if vp.Bool() {
+		xobjEntry = put(11, xobj)
+	}
+	if vp.Bool() {
+		res["Font"] = fontEntry
+	}
+	if vp.Bool() {
+		res["XObject"] = xobjEntry
+	}
+	var node types.Object = res
+	if vp.Bool() {
+		node = put(12, res)
+	}
+	pAttrs := &InheritedPageAttrs{}
+	switch vp.IntRange(0, 2) {
+	case 1: // inherited resources without the sub-dictionaries of this node
+		pAttrs.Resources = types.Dict{"ProcSet": types.Array{types.Name("PDF")}}
+	case 2: // inherited resources that already have a font sub-dictionary
+		pAttrs.Resources = types.Dict{"Font": types.Dict{"F0": *types.NewIndirectRef(23, 0)}}
+	}
+	if err := xt.consolidateResources(node, pAttrs); err != nil {
+		return
+	}
+	// the optimiser prunes the working copy
+	for _, v := range pAttrs.Resources {
+		if d, ok := v.(types.Dict); ok {
+			for k := range d {
+				delete(d, k)
+			}
+		}
+	}
+	for k := range pAttrs.Resources {
+		delete(pAttrs.Resources, k)
+	}
+	vp.Assert(len(font) == 2 && len(xobj) == 1, "pruning a page's working copy of the resources changed a resource dictionary of the document (aliasing)")
+	_, hasFont := res["Font"]
+	_, hasX := res["XObject"]
+	vp.Assert(len(res) == btoi(hasFont)+btoi(hasX), "pruning a page's working copy changed the node's /Resources dictionary")
+}
+
+func btoi(b bool) int {
+	if b {
+		return 1
+	}
+	return 0
+}
